@@ -34,9 +34,12 @@ Record world := mkW {
 Inductive point := PIdle | PBeforeLaunch | PAfterLaunch | PMidConfigure.
 
 Inductive op :=
-| OCreate (k : N)                 (* a new environment acquires k tasks (ACCEPT + roster, locked) *)
+| OCreate (k : N)                 (* CreateEnvironment: pre-deployment cleanup of the unlocked tasks,
+                                     then k new tasks are acquired (ACCEPT + roster, locked) *)
 | OStart (e : N)                  (* transitions that leave ownership alone *)
-| ODestroy (e : N) (keep : bool)  (* teardown: release; unless keep, kill the released tasks *)
+| ODestroy (e : N) (keep : bool)  (* teardown: release; unless keep, kill the released tasks.
+                                     keep = keepTasks was asked AND the environment FSM (not modelled
+                                     here) was in a state from which DestroyEnvironment honours it *)
 | ODestroyStuck (e : N)           (* teardown whose KILLs have no effect yet: middle of a teardown *)
 | ODie (t : N)                    (* a task terminates by itself *)
 | OMesosState (t : N) (s : N)     (* the master's view of a live task moves to another live state *)
@@ -122,9 +125,7 @@ Definition destroy (w : world) (e : N) (keep effective : bool) : world * list ca
   if negb (memN e (w_envs w)) then (w, []) else
   let victims := env_tasks e (w_roster w) in
   let ros1 := release e (w_roster w) in
-  (* DestroyEnvironment honours keepTasks only for a healthy environment; one that lost a task is
-     in ERROR, its teardown is forced and the tasks are cleaned up whatever was asked *)
-  if keep && forallb rt_active victims then
+  if keep then
     (mkW (w_failover w) (w_store w) (w_nextfw w) (w_master w) (w_mem w) ros1
          (remove_env e (w_envs w)) (w_ntask w) (w_nenv w) (w_pending w), [])
   else
@@ -141,6 +142,11 @@ Definition cleanup (w : world) : world * list call :=
   (mkW (w_failover w) (w_store w) (w_nextfw w) (master_kill ks (w_master w)) (w_mem w)
        (remove_ids (map rt_id victims) (w_roster w)) (w_envs w) (w_ntask w) (w_nenv w) (w_pending w),
    map CKill ks).
+
+(* CreateEnvironment = Cleanup() of everything unlocked, then the deployment *)
+Definition create (w : world) (k : N) : world * list call :=
+  let '(w1, c1) := cleanup w in
+  let '(w2, c2) := launch w1 k in (w2, c1 ++ c2).
 
 (* ---------- one reconciliation answer (handleMessage, REASON_RECONCILIATION) ---------- *)
 Definition answer (w : world) : world * list call :=
@@ -161,7 +167,7 @@ Definition crash (w : world) : world :=
 
 Definition step (w : world) (o : op) : world * list call :=
   match o with
-  | OCreate k => launch w k
+  | OCreate k => create w k
   | OStart _ => (w, [])
   | ODestroy e keep => destroy w e keep true
   | ODestroyStuck e => destroy w e false false
@@ -184,9 +190,10 @@ Definition step (w : world) (o : op) : world * list call :=
       match p with
       | PIdle => (w, [])
       | PBeforeLaunch =>
-        (mkW (w_failover w) (w_store w) (w_nextfw w) (w_master w) (w_mem w) (w_roster w) (w_envs w)
-             (w_ntask w) (N.succ (w_nenv w)) (w_pending w), [])
-      | PAfterLaunch | PMidConfigure => launch w k
+        let '(w0, c0) := cleanup w in
+        (mkW (w_failover w0) (w_store w0) (w_nextfw w0) (w_master w0) (w_mem w0) (w_roster w0) (w_envs w0)
+             (w_ntask w0) (N.succ (w_nenv w0)) (w_pending w0), c0)
+      | PAfterLaunch | PMidConfigure => create w k
       end in
     let '(w2, c2) := subscribe (crash w1) in
     (w2, c1 ++ c2)
@@ -384,3 +391,52 @@ Definition tag18 (c : c18_case) : N :=
        end.
 
 Definition report18 := report corr18 mon18 tag18.
+
+(* ---------- vocabulary of the property theorems ---------- *)
+Definition after (w : world) (ops : list op) : world := fst (run w ops).
+Definition calls_of (w : world) (ops : list op) : list call := snd (run w ops).
+
+(* nobody but the core writes the persisted framework id *)
+Definition no_tamper (ops : list op) : bool := forallb (fun o => negb (is_tamper o)) ops.
+
+(* ordinary activity of one life: no (re)subscription, no teardown stuck half-way, no tampering *)
+Definition tame (o : op) : bool :=
+  match o with
+  | OCreate _ | OStart _ | ODestroy _ _ | ODie _ | OMesosState _ _ | OCleanup | OAnswer => true
+  | ODestroyStuck _ | OStoreSet _ | OReconnect | OCrash _ _ => false
+  end.
+
+(* the next reconciliation answer makes handleMessage send KILL to a task that is in the roster,
+   locked by an environment that is alive *)
+Definition hits_owned (w : world) : bool :=
+  match w_pending w with
+  | (t, s) :: _ =>
+    memN s recon_kill_states && negb (recon_guarded && in_roster t (w_roster w)) && owned w t
+  | [] => false
+  end.
+
+(* along the history no reconciliation answer ever kills an owned task *)
+Fixpoint spares_owned (w : world) (ops : list op) : bool :=
+  match ops with
+  | [] => true
+  | o :: r =>
+    (match o with OAnswer => negb (hits_owned w) | _ => true end) && spares_owned (fst (step w o)) r
+  end.
+
+(* every re-established connection finds the roster without a task owned by an environment
+   (restarts always do: the roster of a new life is empty) *)
+Fixpoint reconnects_unowned (w : world) (ops : list op) : bool :=
+  match ops with
+  | [] => true
+  | o :: r =>
+    (match o with
+     | OReconnect => negb (existsb (owned_by (w_envs w)) (w_roster w))
+     | _ => true
+     end) && reconnects_unowned (fst (step w o)) r
+  end.
+
+Definition no_reconnect (ops : list op) : bool :=
+  forallb (fun o => match o with OReconnect => false | _ => true end) ops.
+
+(* the shortest history on which the pinned code kills an owned task *)
+Definition c18_witness : list op := [OCreate 1; OReconnect; OAnswer].
